@@ -92,3 +92,35 @@ impl Report {
         self.out.finish();
     }
 }
+
+use crate::exp::{Exp, Obs, satisfies};
+
+impl Report {
+    /// compare one scalar observation with its expectation
+    pub fn check(&mut self, fname: &str, key: &str, cell: &str, exp: &Exp, obs: Obs, case: &Value) -> bool {
+        self.check_tol(fname, key, cell, exp, obs, 1e-9, false, case)
+    }
+    #[allow(clippy::too_many_arguments)]
+    pub fn check_tol(&mut self, fname: &str, key: &str, cell: &str, exp: &Exp, obs: Obs, tol: f64, null_as_zero: bool, case: &Value) -> bool {
+        self.cells += 1;
+        if exp.is_any() {
+            self.skipped();
+            return true;
+        }
+        match satisfies(exp, obs, tol, null_as_zero) {
+            Ok(d) => {
+                self.ok(fname, d);
+                true
+            },
+            Err(d) => {
+                self.mismatch(fname, fname, key, cell, &d, case);
+                false
+            },
+        }
+    }
+    /// a panic (or an Err where a value is required) observed in place of a result
+    pub fn fail(&mut self, fname: &str, key: &str, cell: &str, what: &str, case: &Value) {
+        self.cells += 1;
+        self.mismatch(fname, fname, key, cell, what, case);
+    }
+}
